@@ -154,6 +154,22 @@ Proof. exact f_stamps. Qed.
     kind, value), newest first.  [slot_pending b]: what the next [read] of the slot returns.
     All statements hold for every history, every set of kinds, every effect function. *)
 
+(** The whole calls of this layer are the protocol steps of the fine-grained system composed:
+    [slot_write] is the three writer steps of a complete [write] issued between two callbacks,
+    [slot_read] the reader's steps on one kind (one if the dirty bit is clear, four if it is set),
+    after which the audio thread is at the next kind or done; no other buffer is touched. *)
+Theorem multi_slot_calls_are_protocol_steps :
+  (forall s c v p, wp s = WIdle -> prog s = (c, v) :: p ->
+     bufs (do_write s) c = w_publish v (cs s) (cd s) (w_fill2 v (w_fill1 v (bufs s c))) /\
+     (cs s = cd s -> bufs (do_write s) c = slot_write (cs s) v (bufs s c)) /\
+     (forall c', c' <> c -> bufs (do_write s) c' = bufs s c')) /\
+  (forall K s c, rp s = RDrain c RStart ->
+     let s' := if dirty (bufs s c) then rstep K (rstep K (rstep K (rstep K s))) else rstep K s in
+     bufs s' c = snd (slot_read (cs s) (bufs s c)) /\
+     (forall c', c' <> c -> bufs s' c' = bufs s c') /\
+     (rp s' = RBetween \/ rp s' = RDrain (S c) RStart)).
+Proof. exact p_slot_calls. Qed.
+
 (** The state after any history is obtained by folding, over the completed intervals, the
     composition IN THE CODE'S ORDER of the per-kind effects of the LAST command of each kind of
     the interval: nothing else ever touches the state, in particular nothing issued in an
